@@ -744,7 +744,7 @@ def gen_sign_schema(rng: random.Random):
                       'cons': [], 'signers': []})
         suffix = '#S'
     for j, rid in enumerate(ids):
-        for _d in range(2 if rng.random() < 0.25 else 1):
+        for _d in range(2 if rng.random() < 0.35 else 1):
             items = []
             for _t in range(rng.choice([1, 2, 2, 3])):
                 q = rng.random()
@@ -778,6 +778,15 @@ def gen_sign_schema(rng: random.Random):
             later = ids[j + 1:]
             if later and rng.random() < 0.85:
                 signers = sorted(set(rng.choice(later) for _ in range(rng.choice([1, 1, 2]))))
+            if _d == 1 and rng.random() < 0.6:
+                # a second definition that describes exactly the same names as the first one and differs only in its
+                # signers: both definitions end on the same tree node, each must contribute its own signers
+                import copy as _copy
+                first = next(r for r in rules if r['id'] == rid)
+                items, cons = _copy.deepcopy(first['items']), _copy.deepcopy(first['cons'])
+                alt = [x for x in later if x not in first['signers']]
+                if alt:
+                    signers = [rng.choice(alt)]
             rules.append({'id': rid, 'items': items, 'cons': cons, 'signers': signers})
     if rng.random() < 0.5:
         rng.shuffle(rules)
